@@ -13,6 +13,7 @@ import os
 import re
 import queue
 import shutil
+import random
 import subprocess
 import tempfile
 import threading
@@ -226,7 +227,17 @@ def assemble(src):
                 break
     except Exception:  # noqa
         pass
-    return p.name, origin, img
+    # the name the source gives the program: the operand of its (last) NAM statement, wherever it stands - read from the
+    # source text, not from Program.name
+    name = p.name
+    try:
+        import re as _re
+        nams = [m.group(1) for m in (_re.match(r"^\S*\s+NAM\s+(\S+)", l, _re.I) for l in src.split("\n")) if m]
+        if nams and name != nams[-1]:
+            name = nams[-1]
+    except Exception:  # noqa
+        pass
+    return name, origin, img
 
 
 def mkdir():
@@ -709,6 +720,46 @@ def run_c10(pid, tier, rng, drv, rep, hist):
             rep.sample({"case": case["label"], "stdout": obs[0]["out"][:160], "rc": obs[0]["rc"],
                         "target_written": obs[0]["after"].get("t.out") != obs[0]["before"].get("t.out")})
     par_map(lambda d, co: c10_check_case(pid, d, rep, co[0], co[1], hist), zip(cases, allobs), rep)
+    failed_append_cases(pid, rep, hist, rng)
+
+
+# ---------------------------------------------------------------------------------------------
+# a save that fails must leave what is stored alone (C09, C10): implementation only
+# ---------------------------------------------------------------------------------------------
+
+def failed_append_cases(pid, rep, hist, rng):
+    """assembler.py --append with a --name that cannot be written as bytes (a character above U+00FF; the model's
+    alphabet is one byte per character, so this is judged on the implementation alone): the save is refused - and
+    the image that was there, with the files it holds, must be exactly what it was (false upstream: truncated to
+    0 bytes, repair F54)"""
+    for kind in ("cas", "dsk"):
+        for bad in ("\u0100B", "A\u20acC", "\U0001F600"):
+            d = mkdir()
+            try:
+                with open(os.path.join(d, "p.asm"), "w") as f:
+                    f.write(prog_of_size("FIRST", rng.choice([1, 20, 300]), 0x0E00, 1))
+                with open(os.path.join(d, "q.asm"), "w") as f:
+                    f.write("  ORG $2000\nSTART LDA #1\n  RTS\n")
+                sw = "--to_" + kind
+                r1 = cli("assembler.py", ["p.asm", sw, "t.img"], d)
+                path = os.path.join(d, "t.img")
+                if not os.path.exists(path):
+                    rep.violation("assembler.py %s did not create the image: %s" % (sw, (r1["out"] + r1["err"])[-160:]), {"kind": "failed-append", "container": kind})
+                    continue
+                before = open(path, "rb").read()
+                r2 = cli("assembler.py", ["q.asm", sw, "t.img", "--append", "--name", bad], d)
+                after = open(path, "rb").read() if os.path.exists(path) else None
+                rep.count(("failed-append", kind, bad))
+                hbump(hist, "failed-append/" + kind)
+                if "Traceback" in r2["err"]:
+                    rep.violation("assembler.py --append --name %r: uncaught exception %s" % (bad, r2["err"].strip()[-120:]),
+                                  {"kind": "failed-append", "container": kind, "name": bad})
+                elif after != before and not (after is not None and len(after) > len(before) and "Unable" not in r2["out"]):
+                    rep.violation("a refused append (--name %r: %s) did not leave the %s image alone: %d bytes before, %s after" % (
+                        bad, r2["out"].strip()[-60:], kind, len(before), "no file" if after is None else "%d bytes" % len(after)),
+                        {"kind": "failed-append", "container": kind, "name": bad, "stdout": r2["out"][:300]})
+            finally:
+                shutil.rmtree(d, ignore_errors=True)
 
 
 # ---------------------------------------------------------------------------------------------
@@ -769,6 +820,10 @@ def gen_history(rng, tier, kind):
                 f = f[:6] + (f[6][:2000],)
                 need = 1
             budget -= need
+        # a file kept on a disk may be anything - also a recording of a tape (a .CAS kept on the disk)
+        if kind == "dsk" and rng.random() < 0.12:
+            inner = impl_tape([("INNER", "BIN", 2, 0, 0x0E00, 0x0E00, bytes(rng.randrange(256) for _ in range(rng.choice([1, 40, 300]))))])
+            f = f[:6] + (inner,)
         # a name stored before may be stored again (a rebuilt program under the same name, GAME.BAS next to GAME.BIN):
         # both files are kept, in order
         prev = [o[1] for o in ops if o[0] == "A"]
@@ -941,6 +996,7 @@ def run_c09(pid, tier, rng, drv, rep, hist):
         rep.count(digest([case["files"], case["invs"]]))
         hbump(hist, "cli/" + case["label"])
     par_map(lambda d, co: c09_check_cli(pid, d, rep, co[0], co[1], hist), zip(cases, allobs), rep)
+    failed_append_cases(pid, rep, hist, rng)
 
 
 # ---------------------------------------------------------------------------------------------
@@ -1105,6 +1161,9 @@ def program_pool(rng):
         ("orgequ", "SCREEN EQU $0400\n  ORG $3F00\nSTART LDX #SCREEN\n  JMP START\n"),
         ("org3", "  ORG 0\n  ORG $7000\nSTART JSR SUB\nSUB RTS\n"),
     ]
+    # a NAM statement is the program's name wherever it stands: after the first instruction, after a data table, last
+    late = [("namlate1", "START LDA #1\n  NAM %s\n  RTS\n"), ("namlate2", "TABLE FCB 1,2,3\n  NAM %s\nSTART LDX #TABLE\n  RTS\n"),
+            ("namlate3", "START CLRA\n  RTS\n  NAM %s\n  END START\n")]
     origins = [None, "$0E00", "$10", "$00FF", "256", "$7F00", "$FF00", "$0001", "3584", "$0600"]
     names = ["A", "hi", "Hello", "GAMEDATA", "lowercas", "MixedCase9", "ABCDEFGHIJKL", "x1", "Z", "prog12345678"]
     i = 0
@@ -1126,6 +1185,10 @@ def program_pool(rng):
             arg = {"arg": nm, "both": "OTHER", "nam": None, "none": None}[how]
             P.append(("%s/%s/org=%s/%s" % (bl, how, org, nm if how != "none" else "-"), src, arg))
             i += 1
+    for j, (bl, body) in enumerate(late):
+        nm = names[(j * 3 + 1) % len(names)]
+        for arg in (None, "OTHER"):
+            P.append(("%s/late/%s" % (bl, arg or "-"), "  ORG $0E00\n" + body % nm, arg))
     return P
 
 
@@ -1324,6 +1387,9 @@ def replay(pid, path):
                 ok = c16_check(pid, drv, rep, case, obs, hist)
             else:
                 ok = c11_check(pid, drv, rep, case, obs, hist)
+        elif r.get("kind") == "failed-append":
+            failed_append_cases(pid, rep, hist, random.Random(1))
+            ok = True
         else:
             print("replay: nothing executable recorded (%s)" % r.get("what", "")[:200])
             return 1
